@@ -288,6 +288,14 @@ def clause3(P, res, hs):
                     good.append(f"{e.loc}: closed <- {o}")
                 else:
                     bad.append(f"{e.loc}: {r['adt'].rsplit('::',1)[-1]}.closed <- {o}" + ("" if b is m else f" (in helper {b.id})"))
+            # idiom: build through a constructor helper, then copy the flag: `converted.closed.store(self.closed.load(..))`
+            copies = [e for e in m.calls() if e.is_atomic and e.method == "store" and len(e.args) > 1 and m.path_of_operand(e.args[0]).endswith(".closed")
+                      and not m.path_of_operand(e.args[0]).startswith("self.") and origin(m, e.args[1]) == "self.closed"]
+            if bad and copies and all("(in helper" in x for x in bad):
+                from rules import cachelib
+                if cachelib.all_paths_pass(m, [(0, 0)], [x.pos for x in copies]):
+                    good.append(f"{copies[0].loc}: new handle's closed <- self.closed (stored after construction)")
+                    bad = []
             if bad:
                 res.violated(rid, key, "conversion re-opens a closed handle: the new handle's `closed` does not come from `self.closed` — "
                              + bad[0] + "; the converted handle accepts operations again and its Drop decrements the handle count a second time",
